@@ -15,14 +15,37 @@ theorem applyFn_mono_add (n k : Nat) (f : Val) (args : List Val) (h : applyFn n 
   | zero => rfl
   | succ k ih => rw [← Nat.add_assoc, applyFn_mono (n + k) f args (by rw [ih]; exact h), ih]
 
+theorem want_nonvar {b : Builtin} (h : b.variadic = none) (n : Nat) : b.want n = b.arity := by
+  simp [Builtin.want, Builtin.arity, h]
+
+theorem paramsAt_nonvar {b : Builtin} (h : b.variadic = none) (n : Nat) : b.paramsAt n = b.params := by
+  simp [Builtin.paramsAt, h]
+
+theorem lt_arity_of_lt_want {b : Builtin} {n : Nat} (h : n < b.want n) : n < b.arity := by
+  unfold Builtin.want at h
+  unfold Builtin.arity
+  cases hv : b.variadic with
+  | none => simpa [hv] using h
+  | some t =>
+    simp only [hv] at h ⊢
+    split at h <;> omega
+
+theorem FnLike.depth_zero {v : Val} {b : Builtin} {L : List Val} (h : FnLike v b L) (hd : depth v = 0) :
+    v = .builtin b ∧ L = [] := by
+  cases h with
+  | base => exact ⟨rfl, rfl⟩
+  | part _ _ => simp [depth] at hd
+
 theorem chain_lt {v : Val} {b : Builtin} {L args : List Val} (n : Nat) (h : FnLike v b L)
+    (hv : b.variadic = none ∨ 0 < depth v)
     (hl : args.length + L.length < b.arity) : applyFn (n + 1) v args = .ok (.part v args []) := by
   cases h with
   | base =>
+    have hv : b.variadic = none := by rcases hv with hv | hv; exact hv; simp [depth] at hv
     simp only [List.length_nil, Nat.add_zero] at hl
     have h1 : ¬ args.length > b.arity := by omega
     have h2 : (args.length == b.arity) = false := by simp; omega
-    simp [applyFn, h1, h2]
+    simp [applyFn, want_nonvar hv, h1, h2]
   | part hg hlt =>
     rename_i g Lg bs
     obtain ⟨ha, hle⟩ := hg.arity
@@ -32,11 +55,13 @@ theorem chain_lt {v : Val} {b : Builtin} {L args : List Val} (n : Nat) (h : FnLi
     simp [applyFn, ha, h1, h2]
 
 theorem chain_gt {v : Val} {b : Builtin} {L args : List Val} (n : Nat) (h : FnLike v b L)
+    (hv : b.variadic = none ∨ 0 < depth v)
     (hl : args.length + L.length > b.arity) : applyFn (n + 1) v args = .error .error := by
   cases h with
   | base =>
+    have hv : b.variadic = none := by rcases hv with hv | hv; exact hv; simp [depth] at hv
     simp only [List.length_nil, Nat.add_zero] at hl
-    simp [applyFn, hl]
+    simp [applyFn, want_nonvar hv, hl]
   | part hg hlt =>
     rename_i g Lg bs
     obtain ⟨ha, hle⟩ := hg.arity
@@ -78,19 +103,20 @@ theorem builtin_sim (j : Nat) (IH : ApplySim j) (b : Builtin) (xs' xs : List Val
     ResSim (applyFn (j + 1) (.builtin b) xs') (applyFn (j + 1) (.builtin b) xs) := by
   have hlen := Sims_length hx
   simp only [applyFn, hlen] at hne ⊢
-  by_cases h1 : xs.length > b.arity
+  by_cases h1 : xs.length > b.want xs.length
   · simp [h1, ResSim]
   · simp only [h1, if_false] at hne ⊢
-    by_cases h2 : xs.length = b.arity
-    · simp only [h2, beq_self_eq_true, if_true] at hne ⊢
-      have cr := convertAll_sim (ts := b.params) hx
-      cases hc' : convertAll b.params xs' with
+    by_cases h2 : xs.length = b.want xs.length
+    · have h2' : (xs.length == b.want xs.length) = true := by simpa using h2
+      simp only [h2', if_true] at hne ⊢
+      have cr := convertAll_sim (ts := b.paramsAt xs.length) hx
+      cases hc' : convertAll (b.paramsAt xs.length) xs' with
       | error e' =>
-        cases hc : convertAll b.params xs with
+        cases hc : convertAll (b.paramsAt xs.length) xs with
         | error e => simp only [hc, hc', ResSims] at cr; simp [ResSim, cr]
         | ok _ => simp [hc, hc', ResSims] at cr
       | ok cs' =>
-        cases hc : convertAll b.params xs with
+        cases hc : convertAll (b.paramsAt xs.length) xs with
         | error e => simp [hc, hc', ResSims] at cr
         | ok cs =>
           simp only [hc, hc', ResSims] at cr
@@ -117,11 +143,11 @@ theorem builtin_sim (j : Nat) (IH : ApplySim j) (b : Builtin) (xs' xs : List Val
               simp only [hs, hs']
               have hgc := B6.Lemmas.VMLambda.step_tail_callable' hc hs
               exact IH g' g ys' ys sr.1 hgc sr.2 hne
-    · have h3 : (xs.length == b.arity) = false := by simpa using h2
+    · have h3 : (xs.length == b.want xs.length) = false := by simpa using h2
       simp only [h3, Bool.false_eq_true, if_false, ResSim]
-      have hlt : xs.length < b.arity := by omega
+      have hlt : xs.length < b.arity := lt_arity_of_lt_want (by omega)
       exact .fn (.part (L := []) (.base b) (by simpa [hlen] using hlt)) (.part (L := []) (.base b) (by simpa using hlt))
-        (Sims_append hx .nil) (Nat.le_refl _)
+        (Sims_append hx .nil) (Nat.le_refl _) (fun _ => rfl)
 
 theorem apply_sim : ∀ (n : Nat), ApplySim n := by
   intro n
@@ -131,16 +157,39 @@ theorem apply_sim : ∀ (n : Nat), ApplySim n := by
     cases n with
     | zero => simp [applyFn] at hne
     | succ k =>
-      have hfn : ∃ b L' L, FnLike v' b L' ∧ FnLike v b L ∧ Sims L' L ∧ depth v' ≤ depth v := by
+      have hfn : ∃ b L' L, FnLike v' b L' ∧ FnLike v b L ∧ Sims L' L ∧ depth v' ≤ depth v ∧
+          (b.variadic.isSome = true → depth v = depth v') := by
         cases hs with
-        | fn f1 f2 fs fd => exact ⟨_, _, _, f1, f2, fs, fd⟩
+        | fn f1 f2 fs fd fv => exact ⟨_, _, _, f1, f2, fs, fd, fv⟩
         | _ => simp [Val.isCallable] at hc
-      obtain ⟨b, L', L, f1, f2, fs, fd⟩ := hfn
+      obtain ⟨b, L', L, f1, f2, fs, fd, fv⟩ := hfn
       have hl := Sims_length fs
       have hal := Sims_length ha
+      by_cases hdir : b.variadic.isSome = true ∧ depth v = 0
+      · -- a variadic builtin itself on both sides
+        have hd' : depth v' = 0 := by have := fv hdir.1; omega
+        obtain ⟨rfl, rfl⟩ := f2.depth_zero hdir.2
+        obtain ⟨rfl, rfl⟩ := f1.depth_zero hd'
+        exact builtin_sim k (ih k (by omega)) b args' args ha hne
+      have hv2 : b.variadic = none ∨ 0 < depth v := by
+        cases hvv : b.variadic with
+        | none => exact Or.inl rfl
+        | some t =>
+          refine Or.inr ?_
+          have : ¬ depth v = 0 := fun h0 => hdir ⟨by simp [hvv], h0⟩
+          omega
+      have hv1 : b.variadic = none ∨ 0 < depth v' := by
+        cases hvv : b.variadic with
+        | none => exact Or.inl rfl
+        | some t =>
+          refine Or.inr ?_
+          have h1 := fv (by simp [hvv])
+          have : ¬ depth v = 0 := fun h0 => hdir ⟨by simp [hvv], h0⟩
+          omega
       rcases Nat.lt_trichotomy (args.length + L.length) b.arity with hlt | heq | hgt
-      · rw [chain_lt k f1 (by omega), chain_lt k f2 hlt]
+      · rw [chain_lt k f1 hv1 (by omega), chain_lt k f2 hv2 hlt]
         exact .fn (.part f1 (by omega)) (.part f2 hlt) (Sims_append ha fs) (by simp only [depth]; omega)
+          (fun hh => by simp only [depth]; have := fv hh; omega)
       · by_cases hk : k + 1 ≤ depth v
         · exact absurd (chain_fuel (k + 1) args f2 heq hk) hne
         · have e2 : k + 1 = (k - depth v + 1) + depth v := by omega
@@ -156,7 +205,7 @@ theorem apply_sim : ∀ (n : Nat), ApplySim n := by
           have e3 : k - depth v' + 1 = (k - depth v + 1) + (depth v - depth v') := by omega
           rw [e3, applyFn_mono_add _ _ _ _ (hb.ne_fuel hne)]
           exact hb
-      · rw [chain_gt k f1 (by omega), chain_gt k f2 hgt]
+      · rw [chain_gt k f1 hv1 (by omega), chain_gt k f2 hv2 hgt]
         simp [ResSim]
 
 
@@ -303,7 +352,8 @@ theorem ESim.lit (l : Lit) : ESim (.lit l) (.lit l) := by
   simp only [evalWith, ResSim]
   exact Sim.refl_lit l
 
-theorem ESim.noarg {s : String} {b : Builtin} (p : Bool) (hb : Builtin.ofName s = some b) (ha : b.arity > 0) :
+theorem ESim.noarg {s : String} {b : Builtin} (p : Bool) (hb : Builtin.ofName s = some b) (hv : b.variadic = none)
+    (ha : b.arity > 0) :
     ESim (.sym s) (.call (.sym s) [] p) := by
   intro n hne
   cases n with
@@ -311,10 +361,10 @@ theorem ESim.noarg {s : String} {b : Builtin} (p : Bool) (hb : Builtin.ofName s 
   | succ k =>
     have e : evalWith (applyFn (k + 1)) [] (.call (.sym s) [] p) = .ok (.part (.builtin b) [] []) := by
       simp only [evalWith, evalArgs, hb]
-      exact chain_lt k (.base b) (by simpa using ha)
+      exact chain_lt k (.base b) (Or.inl hv) (by simpa using ha)
     rw [e]
     simp only [evalWith, List.lookup, hb, ResSim]
-    exact .fn (.base b) (.part (L := []) (.base b) (by simpa using ha)) .nil (by simp [depth])
+    exact .fn (.base b) (.part (L := []) (.base b) (by simpa using ha)) .nil (by simp [depth]) (fun hh => by simp [hv] at hh)
 
 theorem canonInter_append : ∀ (a b : List Query), canonInter (a ++ b) = canonInter a ++ canonInter b
   | [], b => by simp [canonInter]
